@@ -558,7 +558,22 @@ fn gen_expr(rng: &mut Rng, cx: &GenCtx, refs: &mut Vec<String>, allow_bad: bool)
     7 => Expr::Lit(LitK::Null),
     8 => Expr::Leave("Math.PI".into()),
     9 => Expr::Opaque(
-      ["compute()", "[compute(), 1]", "[1, compute()]", "[compute(), Math.PI]", "{ a: compute(), b: 1 }", "{ a: 1, b: compute() }", "[[compute()], 2]", "(compute(), 1)"][rng.below(8)].into(),
+      [
+        "compute()",
+        "[compute(), 1]",
+        "[1, compute()]",
+        "[compute(), Math.PI]",
+        "{ a: compute(), b: 1 }",
+        "{ a: 1, b: compute() }",
+        "[[compute()], 2]",
+        "(compute(), 1)",
+        // templates below the top level: every substitution has to be leavable, wherever it stands
+        "[`id-${compute()}-${1}`]",
+        "[`a${1}b${compute()}c${2}`]",
+        "{ a: `x${compute()}y${Math.PI}z` }",
+        "[`${compute()}${y}`, 1]",
+      ][rng.below(12)]
+        .into(),
     ),
     10 => Expr::Opaque("new Map()".into()),
     _ => Expr::AsT { ty: "typeof Math".into(), simple: false },
@@ -725,6 +740,17 @@ pub fn gen_decl(rng: &mut Rng, cx: &GenCtx, name: String, exported: bool, p_bad:
                 refs.extend(r);
               }
               params.push((p, prop));
+            }
+            // a private constructor whose parameter property is not private and has no type of its
+            // own: the property is part of the class's public shape whatever the constructor is
+            if access == Access::Priv && rng.chance(1, 3) {
+              let dflt = match rng.below(3) {
+                0 => None,
+                1 => Some(Expr::Opaque("compute()".into())),
+                _ => Some(Expr::Opaque("new Map()".into())),
+              };
+              let prop = Some((*pick(rng, &[Access::Pub, Access::Prot]), rng.chance(1, 2)));
+              params.push((Param { name: format!("c{}", k), opt: false, rest: false, ty: None, dflt }, prop));
             }
             members.push(Member::Ctor { access, params, calls_super: false, overloads });
           }
